@@ -11,6 +11,8 @@ import (
 	"testing"
 	"time"
 
+	"github.com/Cloud-Foundations/keymaster/keymasterd/admincache"
+
 )
 
 // TestVerifC06: `ca <mask> <method origin host tls cookie basic limiter>` ↦ outcome of the real checkAuth.
@@ -128,6 +130,13 @@ func vfProbeRoute(t *testing.T, state *RuntimeState, shapes *vfShapes, path, web
 	}
 	state.Config.Base.AllowedAuthBackendsForCerts = []string{"password"}
 	state.Config.SymantecVIP.Enabled = false
+	// alice is an administrator and automation administrator: an admitted request then really
+	// has an effect (user administration, role certificates), so a bypassed gate is observable
+	state.Config.Base.AdminUsers = []string{"alice"}
+	state.Config.Base.AutomationAdmins = []string{"alice"}
+	if state.isAdminCache == nil {
+		state.isAdminCache = admincache.New(5 * time.Minute)
+	}
 	vfSeedProfiles(t, state)
 	url := path
 	if strings.HasSuffix(path, "/") && path != "/" {
